@@ -37,7 +37,7 @@ type C19Scenario struct {
 func drawC19(rt *rapid.T, tier string) C19Scenario {
 	if rapid.IntRange(0, 2).Draw(rt, "mode") == 0 {
 		o := srvDrawOpts{backends: []string{"cdb", "cdb", "cdb", "rdb2"}, maxClients: 3, maxQueries: 6, maxOps: 3,
-			faults: []string{"missing", "nokey"}, ecs: true}
+			faults: []string{"missing", "nokey"}, ecs: true, badvers: true}
 		sc := drawSrv(rt, o)
 		sc.Cache = rapid.Bool().Draw(rt, "cache")
 		sc.LRUSize = 64
